@@ -1,3 +1,4 @@
+mod auth;
 mod checks;
 mod common;
 mod sim;
@@ -20,6 +21,7 @@ fn main() {
                 "C01" | "C02" | "C03" | "C05" | "C06" | "C07" | "C08" | "C09" | "C13" | "C14" | "C04" => {
                     checks::check_sim(&prop, &tier)
                 }
+                "C20" => auth::check(&prop, &tier),
                 _ => {
                     eprintln!("no check registered for {prop}");
                     2
